@@ -217,7 +217,37 @@ pub fn grammar_list(args: &[String]) {
     let mut w = writer(&out);
     let (mut seen, mut rejected) = (0u64, 0u64);
     pest::set_call_limit(None);
-    if let Some(cases) = arg(args, "--cases") {
+    if args.iter().any(|a| a == "--unicode") {
+        // one grammar with a rule per advertised Unicode property name; inputs: for every name its first, middle
+        // and last member and their neighbours, each as a one-character text - every rule runs on every pick
+        let names: Vec<&str> = pest::unicode::unicode_property_names().collect();
+        let mut picks = std::collections::BTreeSet::new();
+        for n in &names {
+            if let Some(f) = pest::unicode::by_name(n) {
+                let members: Vec<u32> = (0u32..0x110000).filter(|c| char::from_u32(*c).map_or(false, |ch| f(ch))).collect();
+                if members.is_empty() {
+                    continue;
+                }
+                for c in [members[0], members[members.len() / 2], members[members.len() - 1]] {
+                    for d in [c.saturating_sub(1), c, c + 1] {
+                        if char::from_u32(d).is_some() {
+                            picks.insert(d);
+                        }
+                    }
+                }
+            }
+        }
+        let text: String = names.iter().map(|n| format!("p_{} = {{ {} }}\n", n.to_lowercase(), n)).collect();
+        let mut cs = vec![];
+        for n in &names {
+            for c in &picks {
+                cs.push(json!({"start": format!("p_{}", n.to_lowercase()), "inp": [c]}));
+            }
+        }
+        seen += 1;
+        wl(&mut w, &json!({"gi": gi, "text": text, "cases": cs}));
+        gi += 1;
+    } else if let Some(cases) = arg(args, "--cases") {
         let max = arg_u64(args, "--max", 50);
         let lines: Vec<String> = read_lines(&cases).collect();
         let stride = (lines.len() as u64 / max.max(1)).max(1);
